@@ -40,13 +40,24 @@ var envGo = map[string]interface{}{
 	"l1": []interface{}{1., 2., 3.}, "l2": []interface{}{"a", "b"}, "l0": []interface{}{},
 }
 
-func envRef() map[string]lang.Value {
+// The environment of the second evaluation of the same tree: every name keeps
+// its kind and changes its value (n0 stays zero: it is the zero divisor).
+var envGo2 = map[string]interface{}{
+	"n1": 7., "n2": 2., "n3": 4., "n0": 0., "nn": -1.,
+	"s1": "abc", "s2": "a", "s3": "ab",
+	"b1": false, "b2": true, "u": nil,
+	"l1": []interface{}{4., 5.}, "l2": []interface{}{"c"}, "l0": []interface{}{},
+}
+
+func envRefOf(env map[string]interface{}) map[string]lang.Value {
 	out := map[string]lang.Value{}
-	for k, v := range envGo {
+	for k, v := range env {
 		out[k] = lang.FromGo(v)
 	}
 	return out
 }
+
+func envRef() map[string]lang.Value { return envRefOf(envGo) }
 
 func rootOp(e *lang.E) string {
 	if e.IsBinary() || e.IsPrefix() {
@@ -102,7 +113,7 @@ func runCase(c Case) *hx.Failure {
 	}
 
 	want, werr, unspec := lang.EvalExpr(c.Expr, envRef())
-	res := erun.Run(src, erun.Options{Env: envGo, NoEval: unspec != ""})
+	res := erun.Run(src, erun.Options{Env: envGo, Env2: envGo2, NoEval: unspec != ""})
 	if res.Panic != nil {
 		// a crash is C06's subject, but it also means no value/error came back here
 		hx.E.Case(nt, src, append(classes, "outcome.panic")...)
@@ -144,13 +155,38 @@ func runCase(c Case) *hx.Failure {
 	if nt {
 		hx.E.Sample(src, map[string]interface{}{"src": src, "tree": c.Expr.Shape(), "expect": show(want, werr)})
 	}
-	if werr != nil {
-		if res.Err == nil {
-			return hx.Failf("error-missing:"+rootOp(c.Expr), "%q evaluated to %s but must fail with %q", src, lang.Show(res.Val), werr.Type)
+	if f := judge(c, src, "", want, werr, res.Val, res.Err); f != nil {
+		return f
+	}
+	// (3) the same tree evaluated again with other values of the same kinds: nothing of the first
+	// evaluation may stick to the nodes
+	if res.Again {
+		want2, werr2, unspec2 := lang.EvalExpr(c.Expr, envRefOf(envGo2))
+		if unspec2 != "" {
+			hx.E.Class("second-evaluation.unspecified", 1)
+			return nil
 		}
-		typ, detail, _, _, ok := erun.ErrInfo(res.Err)
+		hx.E.Class("second-evaluation.judged", 1)
+		if show(want2, werr2) != show(want, werr) {
+			hx.E.Class("second-evaluation.expects-another-outcome", 1)
+		}
+		if f := judge(c, src, " [second evaluation of the same tree, with n1=7 n2=2 n3=4 nn=-1 s1=\"abc\" s2=\"a\" s3=\"ab\" b1=false b2=true l1=[4,5] l2=[\"c\"]]", want2, werr2, res.Val2, res.Err2); f != nil {
+			f.Sig = "again:" + f.Sig
+			return f
+		}
+	}
+	return nil
+}
+
+// judge compares one evaluation result with the reference's.
+func judge(c Case, src, note string, want lang.Value, werr *lang.ErrV, val interface{}, err error) *hx.Failure {
+	if werr != nil {
+		if err == nil {
+			return hx.Failf("error-missing:"+rootOp(c.Expr), "%q%s evaluated to %s but must fail with %q", src, note, lang.Show(val), werr.Type)
+		}
+		typ, detail, _, _, ok := erun.ErrInfo(err)
 		if !ok || typ != werr.Type {
-			return hx.Failf("error-type:"+rootOp(c.Expr), "%q failed with %q (%v) but must fail with %q", src, typ, res.Err, werr.Type)
+			return hx.Failf("error-type:"+rootOp(c.Expr), "%q%s failed with %q (%v) but must fail with %q", src, note, typ, err, werr.Type)
 		}
 		named := false
 		for _, n := range werr.Operand {
@@ -159,15 +195,15 @@ func runCase(c Case) *hx.Failure {
 			}
 		}
 		if !named {
-			return hx.Failf("error-operand:"+rootOp(c.Expr), "%q failed with detail %q which names none of the offending operands %q", src, detail, werr.Operand)
+			return hx.Failf("error-operand:"+rootOp(c.Expr), "%q%s failed with detail %q which names none of the offending operands %q", src, note, detail, werr.Operand)
 		}
 		return nil
 	}
-	if res.Err != nil {
-		return hx.Failf("unexpected-error:"+rootOp(c.Expr), "%q must evaluate to %s but failed: %v", src, lang.Show(want), res.Err)
+	if err != nil {
+		return hx.Failf("unexpected-error:"+rootOp(c.Expr), "%q%s must evaluate to %s but failed: %v", src, note, lang.Show(want), err)
 	}
-	if !lang.Match(want, res.Val) {
-		return hx.Failf("value:"+rootOp(c.Expr), "%q evaluated to %s, reference says %s", src, lang.Show(res.Val), lang.Show(want))
+	if !lang.Match(want, val) {
+		return hx.Failf("value:"+rootOp(c.Expr), "%q%s evaluated to %s, reference says %s", src, note, lang.Show(val), lang.Show(want))
 	}
 	return nil
 }
